@@ -24,12 +24,37 @@ UNITS = [("m", "m"), ("m", "m"), ("m", "s"), ("s", "T"), ("rad", "m"), ("Hz", "K
 PYTH = [(3, 4), (4, 3), (5, 12), (8, 15), (0, 1), (1, 0), (0, 0), (6, 8), (12, 5), (0, 3)]
 
 
+# values across magnitudes: anything that replaces an exact comparison (== 0, != 0) by an absolute
+# tolerance (np.isclose, round, abs(x) < eps) must show on these
+MAGS = [1e-300, 1e-12, 1e-9, 1e-8, -1e-9, 3e-8, -1e-8, 1e-7, 1e-5, 0.0, -0.0, 1.0, -2.5, 0.125, 1e12, -3e11]
+MAGS_SMALL = [1e-300, 1e-12, 1e-9, 1e-8, -1e-9, 3e-8, -1e-8, -1e-300]
+
+
 def S(x):
+    if isinstance(x, float) and x == 0.0 and math.copysign(1.0, x) < 0:
+        return "-0/1"                    # negative zero survives the JSON round trip
     return g.qs(x)
 
 
 def fl(s):
+    if isinstance(s, str) and s.startswith("-0/"):
+        return -0.0
     return float(F(s))
+
+
+def mag_value(rng, p_zero=0.25, tiny=True):
+    """tiny=False (data that the Coq model pushes through the lightness arithmetic): 1e-30 instead
+    of 1e-300, which keeps the rationals of the evaluation small"""
+    c = rng.random()
+    if c < p_zero:
+        v = rng.choice([0.0, 0.0, -0.0])
+    elif c < p_zero + 0.4:
+        v = rng.choice(MAGS_SMALL)
+    else:
+        v = rng.choice(MAGS)
+    if not tiny and abs(v) == 1e-300:
+        v = math.copysign(1e-30, v)
+    return v
 
 
 # ------------------------------------------------------------------ generators
@@ -79,6 +104,10 @@ def gen_values(rng, n, nvdim, style):
         elif style == "decimal":
             v = [F(round(rng.uniform(-5, 5), 2)) if False else F(float(round(rng.uniform(-5, 5), 2)))
                  for _ in range(nvdim)]
+        elif style == "mags":
+            v = [mag_value(rng, 0.15) for _ in range(nvdim)]
+        elif style == "mags30":
+            v = [mag_value(rng, 0.15, tiny=False) for _ in range(nvdim)]
         elif style == "big":
             v = [F(float(rng.choice([1e5, 8e5, -3e5, 1.1e6, 0.0]) * rng.choice([1, 0.5, 0.25]))) for _ in range(nvdim)]
         else:
@@ -138,7 +167,8 @@ def gen_field(rng, tier, exact=None, nvdim=None, style=None, nmax=None):
         vdims = rng.choice([["a", "b", "c"], ["mx", "my", "mz"], ["z", "x", "y"], ["u", "v", "w"]])[:nvdim]
     labels = vdims if vdims is not None else (["x", "y", "z"][:nvdim] if nvdim > 1 else None)
     mapping = gen_mapping(rng, nvdim, labels, dims)
-    style = style or rng.choice(["dyadic", "dyadic", "decimal", "big", "pyth" if nvdim >= 2 else "dyadic"])
+    style = style or rng.choice(["dyadic", "dyadic", "decimal", "big", "mags", "mags",
+                                 "pyth" if nvdim >= 2 else "dyadic"])
     vals = gen_values(rng, n, nvdim, style)
     c = rng.random()
     tot = n[0] * n[1]
@@ -163,7 +193,10 @@ def gen_aux(rng, n, kind, odd_only=False):
         an = [rng.choice([1, 2, 3, 4, 5, 6, 8, 2 * n[0], 3 * n[0], max(1, n[0] // 2)]),
               rng.choice([1, 2, 3, 4, 5, 6, 2 * n[1], max(1, n[1] // 2)])]
     tot = an[0] * an[1]
-    if kind == "filter":
+    mags = rng.random() < (0.6 if kind == "filter" else 0.45)
+    if mags:
+        vals = [mag_value(rng, 0.3 if kind == "filter" else 0.1, tiny=(kind != "light")) for _ in range(tot)]
+    elif kind == "filter":
         vals = [F(rng.choice([0, 0, 1, 1, 1, 2, -1, F(1, 8)])) for _ in range(tot)]
     else:
         vals = [F(rng.randint(-24, 24), 4) for _ in range(tot)]
@@ -223,7 +256,8 @@ def generate(rng, tier):
     # lightness
     for _ in range(80 * N):
         nv = rng.choice([1, 1, 2, 2, 3, 3, 3])
-        fld = gen_field(rng, tier, nvdim=nv, style=("pyth" if nv == 2 else rng.choice(["dyadic", "pyth"]) if nv == 3 else
+        fld = gen_field(rng, tier, nvdim=nv, style=(rng.choice(["pyth", "pyth", "mags30"]) if nv == 2 else
+                                                    rng.choice(["dyadic", "pyth", "mags30"]) if nv == 3 else
                                                     rng.choice(["dyadic", "decimal"])), nmax=4)
         if nv == 1:   # hue angles in [0, 2 pi)
             fld["vals"] = [S(F(rng.randint(0, 50), 8)) for _ in fld["vals"]]
